@@ -353,8 +353,17 @@ def run(prog: Program, col: Collector, tier: str, refs: Optional[Refs] = None, c
                 continue
             # climb to the arm / statement boundary looking for a negation applied to a value computed from `y`
             compensated = False
+            opaque = False
             node = y
             for a in g_.module.ancestors(y):
+                if isinstance(a, ast.BinOp) and isinstance(a.op, ast.Mult) and any(isinstance(z, ast.UnaryOp) and isinstance(z.op, ast.USub) or (isinstance(z, ast.Constant) and isinstance(z.value, (int, float)) and z.value < 0)
+                                                                                    for z in (a.left, a.right)):
+                    compensated = True
+                    break
+                if isinstance(a, (ast.BinOp, ast.Subscript, ast.Attribute, ast.Lambda)) and not (isinstance(a, ast.BinOp) and isinstance(a.op, ast.Sub)):
+                    opaque = True
+                if isinstance(a, ast.Call) and not (refs.resolve(a.func) or "").endswith("Integrate") and norm(a.func).rsplit(".", 1)[-1] not in ("neg", "Unary"):
+                    opaque = True
                 if isinstance(a, ast.UnaryOp) and isinstance(a.op, ast.USub):
                     compensated = True
                     break
@@ -372,6 +381,9 @@ def run(prog: Program, col: Collector, tier: str, refs: Optional[Refs] = None, c
                     break
                 node = a
             # the IfExp case: the negation may be applied to the whole arm: `-I(t.arg) if neg else I(t)` has the USub inside the arm (found above)
+            if not compensated and opaque:
+                col.unresolved(f"{g_.fq}::{norm(y)}", "the value computed from the stripped term passes through an expression the rule does not read", g_.loc(y))
+                continue
             col.check(compensated, f"{g_.fq}::{norm(y)}", "the integral of the stripped term is negated (linearity of the integral)",
                       f"`{norm(y)}` strips the negation of a term matched as Unary[NegOp, Gaussian], but no negation is applied to the integral computed from it: Integrate(q, f - h) "
                       "returns I(q, f) + I(q, h)", g_.loc(y))
